@@ -1,5 +1,6 @@
 import NeumannModel.Common.Proto
 import NeumannModel.Paths.Model
+import NeumannModel.Paths.AlgoModel
 /-
   Line-protocol driver for the path-query model (C18).
 
@@ -8,7 +9,12 @@ import NeumannModel.Paths.Model
     edge <id> <src> <dst> <d|u> <etype> <weight|-> <prop|-> -> ok
     path <s> <t> <nodeconds> <edgeconds>      -> ok <hops> n=<ids> e=<ids> | none | nonode <id>
     pathold <s> <t> <nodeconds> <edgeconds>   -> same, with the pre-fix neighbour rule
-    allpaths <s> <t>                          -> ok <hops> <count> <n.n/e;...> | none | nonode <id>
+    allpaths <s> <t> [<max_paths> <max_parents>] -> ok <hops> <count> <n.n/e;...> | none | nonode <id>
+    allwpaths <s> <t> <max_paths> <max_parents> -> ok <total> <count> <n.n/e;...> | none | neg <edge id> | nonode <id>
+    components <etype|->                      -> ok <node:root,...> (sorted by node) | empty
+    mst <forest 0|1>                          -> ok <total> <tree count> <weights of the accepted edges> | empty
+    kcore <etype|->                           -> ok <node:core,...> (sorted by node) | empty
+    triangles <etype|-> <undirected 0|1>      -> ok <count> <node:count,...> (sorted by node) | empty
     wpath <s> <t>                             -> ok <cost> n=<ids> e=<ids> | none | neg <edge id> | nonode <id>
     astar <s> <t> <out|in|both>               -> ok <cost> | none      (zero heuristic; cost only)
     trav <s> <out|in|both> <maxdepth> <etype|-> <nodeconds> <edgeconds> -> ok <sorted ids> | nonode <id>
@@ -62,6 +68,17 @@ def insertSorted (x : Nat) : List Nat → List Nat
 
 def sortNats (xs : List Nat) : List Nat := xs.foldr insertSorted []
 
+def insertPair (x : Nat × Nat) : List (Nat × Nat) → List (Nat × Nat)
+  | [] => [x]
+  | y :: ys => if x.1 ≤ y.1 then x :: y :: ys else y :: insertPair x ys
+
+def showPairs (xs : List (Nat × Nat)) : String :=
+  if xs.isEmpty then "-"
+  else ",".intercalate ((xs.foldr insertPair []).map fun p => s!"{p.1}:{p.2}")
+
+def showPaths (ps : List Path) : String :=
+  ";".intercalate (ps.map fun p => dots p.nodes ++ "/" ++ dots p.edges)
+
 def pathsStep (g : Graph) (line : String) : Graph × String :=
   let bad := (g, "bad-op")
   match words line with
@@ -86,6 +103,34 @@ def pathsStep (g : Graph) (line : String) : Graph × String :=
       | some s, some t => (match findAllPaths g 1000 100 s t with
           | .ok r => (g, s!"ok {r.hops} {r.paths.length} " ++ ";".intercalate (r.paths.map fun p => dots p.nodes ++ "/" ++ dots p.edges))
           | .error e => (g, showErr e))
+      | _, _ => bad
+  | ["allpaths", s, t, mp, cap] => match s.toNat?, t.toNat?, mp.toNat?, cap.toNat? with
+      | some s, some t, some mp, some cap => (match findAllPaths g mp cap s t with
+          | .ok r => (g, s!"ok {r.hops} {r.paths.length} " ++ showPaths r.paths)
+          | .error e => (g, showErr e))
+      | _, _, _, _ => bad
+  | ["allwpaths", s, t, mp, cap] => match s.toNat?, t.toNat?, mp.toNat?, cap.toNat? with
+      | some s, some t, some mp, some cap => (match findAllWeightedPaths g mp cap s t with
+          | .ok r => (g, s!"ok {r.total} {r.paths.length} " ++ showPaths r.paths)
+          | .error e => (g, showErr e))
+      | _, _, _, _ => bad
+  | ["components", et] => match parseOptNat et with
+      | some et => if g.nodes.isEmpty then (g, "empty") else (g, "ok " ++ showPairs (connectedComponents g et))
+      | none => bad
+  | ["mst", f] => match f.toNat? with
+      | some f => (match minimumSpanningTree g (f != 0) with
+          | some r => (g, s!"ok {r.total} {r.trees} " ++ showInts (r.edges.map Edge.w))
+          | none => (g, "empty"))
+      | none => bad
+  | ["kcore", et] => match parseOptNat et with
+      | some et => if g.nodes.isEmpty then (g, "empty") else (g, "ok " ++ showPairs (kcore g et))
+      | none => bad
+  | ["triangles", et, u] => match parseOptNat et, u.toNat? with
+      | some et, some u =>
+        if g.nodes.isEmpty then (g, "empty")
+        else
+          let found := triFound g et (u != 0)   -- `triangleCount` = its length, `nodeTriangles` = `cornerCount` of it
+          (g, s!"ok {found.length} " ++ showPairs (g.nodes.map fun n => (n.id, cornerCount found n.id)))
       | _, _ => bad
   | ["wpath", s, t] => match s.toNat?, t.toNat? with
       | some s, some t => (match findWeightedPath g s t with
